@@ -66,6 +66,7 @@ type Contract struct {
 	Opaque    bool
 	Atomic    bool
 	TimeoutS int
+	Clock    bool
 	NoRefine bool
 	Paths    bool
 	Apply    []Clause // explicit lemma instances assumed at entry
@@ -442,6 +443,9 @@ func (db *SpecDB) LoadFile(path, pkgPath string) error {
 			cur.Atomic2 = append(cur.Atomic2, strings.Fields(rest)...)
 		case "note":
 			cur.Notes = append(cur.Notes, rest)
+		case "clock":
+			// the contracts used here mention now(): keep the logical clock while verifying this function
+			cur.Clock = true
 		case "norefine":
 			// an interface contract that is assumed at call sites without being tied to the contracts
 			// of the implementations (listed as an assumption)
